@@ -1,5 +1,5 @@
 CFG = {
-    "modules": ["Parsley.Props.C02", "Parsley.Props.C16", "Parsley.Props.C02Struct", "Parsley.Lemmas.SpellEncoder", "Parsley.Props.C02Encoder", "Parsley.Props.C02Wide", "Parsley.Props.C02Dec"],
+    "modules": ["Parsley.Props.C02", "Parsley.Props.C16", "Parsley.Props.C02Struct", "Parsley.Lemmas.SpellEncoder", "Parsley.Props.C02Encoder", "Parsley.Props.C02Wide", "Parsley.Props.C02Dec", "Parsley.Props.C02Hash"],
     "theorems": ["Parsley.C02.name_window_decoder_eq", "Parsley.C02.name_spelling_decodes", "Parsley.C02.name_roundtrip", "Parsley.C02.integer_spec", "Parsley.C02.integer_roundtrip",
                  "Parsley.C02.hexstring_spec", "Parsley.C02.litstring_roundtrip", "Parsley.C02.litLoop_balanced",
                  "Parsley.C02.real_spec", "Parsley.C02.ws_loop_eq_skip", "Parsley.C02.skipWs_run", "Parsley.C02.wsRun_run",
@@ -25,7 +25,10 @@ CFG = {
                  "Parsley.C02.numberOrRef_overflow", "Parsley.C02.parseInternal_int_range", "Parsley.C02.denote_wide_not_int",
                  # number tokens WITH a decimal point of any size: the dispatcher computes the spec DecLit.denote (all overflow exits of RealP's fraction loop)
                  "Parsley.C02.decimal_token_denotes", "Parsley.C02.spell_parse_decimal", "Parsley.C02.realP_dec_overflow",
-                 "Parsley.C02.numberOrRef_dec_overflow", "Parsley.C02.accFrac_overflow", "Parsley.C02.parseInternal_trailing_dot"],
+                 "Parsley.C02.numberOrRef_dec_overflow", "Parsley.C02.accFrac_overflow", "Parsley.C02.parseInternal_trailing_dot",
+                 # name tokens with raw `#` (a `#` not followed by two hex digits is a literal byte): the model's windows(3) loop computes the spec Spec/NameLit.lean nameDenote
+                 "Parsley.C02.name_model_eq_nameDenote", "Parsley.C02.name_raw_hash_parse", "Parsley.C02.name_null_code_rejected",
+                 "Parsley.C02.nameDenote_hash_literal", "Parsley.C02.nameDenote_hash_code"],
     "partial": {
                 "(depth)": "the depth hypothesis of spell_parse is on the SPELLING depth d (index of `Spells`), not on depth(v): a dropped null-valued "
                 "entry still needs one nesting level (`<</A null>>` has value depth 1 but is rejected at cur+1 = max by the real parser and the model); "
@@ -50,6 +53,16 @@ CFG = {
             "2^31(-1), 2^32(-1,+5), 10^18, 2^63-1 | 2^63, 2^64(+5), 2^127(-1), 10^39 (quick: 2 generations per object number + every generation with 12 and i64::MAX; thorough: full cross), each as written and with the object number, "
             "the generation, and both padded to exactly 19/20/38/39/40 digits, in all the positions above; oracle `refDenote` (Driver/C02.lean, spec side: the reference (value, value) iff both values <= i64::MAX; otherwise at the top level "
             "the first token alone by NumLit.denote, inside an array / dictionary not an object); and every random value that contains a number once more, spelled by `padSpell` (the encoder's freedoms + 0..45 zeros per integer position at any depth). "
+            "RAW `#` IN NAMES (`hash` / `nohash` cases, corpus raw_hash.case 90 hand-built): in a name token `#` followed by two hexadecimal digits is a code for one byte (00 not allowed); a `#` NOT followed by two hexadecimal digits "
+            "is accepted by Parsley as the literal byte `#` and is included as a spelling (oracle Spec/NameLit.lean nameDenote: left to right, own digit table, independent of the model; parser side name_model_eq_nameDenote / name_raw_hash_parse; "
+            "the encoder `spell` always writes `#23`, so the random spellings below never contain a raw `#`). Tokens: EVERY sequence of 1..4 (thorough 1..6) symbols over {A, #, 4, 1, G, `#41`} that contains a `#` - so a raw `#` stands at every "
+            "position where it cannot start a code (last byte, second-to-last byte before a hex digit or another byte, before one hex + one non-hex byte, `##`, directly before each delimiter) before and behind real codes - "
+            "and every sequence of 1..3 (thorough 1..5) symbols over {A, #, 0, `#00`, `#41`} (null code: `/#00#`-like tokens must be rejected); quick also 300 random sequences of 5..6 symbols, and per 16 random values one random token of 1..8 symbols "
+            "over 27 symbols (hex digits of either case, non-hex letters, a high byte, codes `#4a` `#4A` `#7e` `#23` `#2F` `#20` `#00` `#FF` `#0a`, near-codes `#4G` `#g1`, `##`). Each token: bare after 4 leads before the following contexts "
+            "(the generator's 15 + `)` `>` `{` `}` TAB FF `/` `%`; quick 6 of 23 rotating, thorough all for <= 5 symbols), as array element (3 texts), dictionary key (4 texts incl. a second key), dictionary value, key and value, nested, "
+            "and next to a second spelling of the same name (every byte as a code; every byte raw): both in one array (that name twice), as two keys of one dictionary in both orders and nested (must be rejected: `<</#41B# 1/AB# 2>>`). "
+            "The judge recognises the text of a case as a member of the family (hashTexts) and derives the expectation from the spec side alone; classes wrong-value-or-cursor / null-code-in-name-accepted / duplicate-key-accepted. "
+            "Per tier: quick 37334 ordinary cases (28102 hash + 9232 nohash), thorough 1059156 (824377 hash + 234779 nohash); as many view twins. "
             "random values (depth <= 4; boundary integers, reals, names/strings over delimiters, escapes and high bytes, references, arrays, "
             "dictionaries) x random encoder choices (whitespace/comment runs, #hh vs raw and hex case, literal vs hex strings, hex whitespace, "
             "odd-digit shorthand, signs, leading zeros, entry order, null-valued entries) x 15 following contexts x depth slack 0..2; one "
@@ -60,12 +73,14 @@ CFG = {
             "(model of a view = model of its window: Parsley.C17.view_refines_copy); classes of rejected view cases carry the prefix `view-`. What lies behind the window continues the text: behind a truncated spelling the rest of it, "
             "otherwise more digits, ` 0 R` / ` 2 R`, `.5`, regular characters, `#41`, closing delimiters; one `sp`/`lit` twin in three has its window END WITH THE SPELLING (the case's following context, then the continuation, lie behind it: "
             "the end of the view is the delimiter, e.g. `12` | ` 0 R`). CUT family (view only): 10 fixed + 40 (thorough 400) random legal spellings cut at EVERY byte, the rest and a following context behind the window: whatever is accepted must lie "
-            "inside the window, and a string / array / dictionary without its closing delimiter must be rejected (`cut-accepted`). Per tier: quick 32157 ordinary (19895 of them zero-padding / reference-value cases: 18210 swept + 1685 random) + 32157 view twins + 1210 cuts, thorough 564058 (224946: 161768 + 63178) + 564058 + 9034. "
+            "inside the window, and a string / array / dictionary without its closing delimiter must be rejected (`cut-accepted`). Per tier: quick 69491 ordinary (19895 of them zero-padding / reference-value cases: 18210 swept + 1685 random; 37334 raw-# name cases) + 69491 view twins + 1210 cuts, thorough 1623214 (224946: 161768 + 63178; 1059156 raw-# name cases) + 1623214 + 9034. "
             "non-trivial = spelling of >= 4 bytes (distinct by case hash; a view case counts when there are bytes in front of or behind the window)",
     "trusted_base": COMMON_TB + ["modelled, not verified: ParseBuffer primitives as list functions; the relational spec `Spells` defines what a legal spelling is (the encoder `spell` used as generator is proved to produce legal spellings on its whole domain `wfDeep`; every generated value is checked to lie in `wfDeep` at generation time and at build time)"],
     "assumptions": ["integers of the value type handed to the encoder range over -(2^63-1)..2^63-1 (IntegerP has no spelling for i64::MIN; through parse_pdf_obj `-9223372036854775808` does parse, as the Integer i64::MIN, "
                     "by the real-number path: parseInternal_int_range / number_token_denotes and the `lit` cases); a point-free token outside the i64 range is the real value/1 (spell_parse_wide), beyond i128 not an object; a token with a point whose digits (point removed) exceed 2^127-1 or with 39+ fraction digits is not an object, `12.` is the Integer 12 and a lone `.` is read as 0 (decimal_token_denotes; the generator writes at least one digit); reals are (numerator, 10^k) with k >= 1, unnormalised, as the parser represents them",
                     "string values are the raw bodies (the parser does not unescape)",
+                    "names: a `#` that is NOT followed by two hexadecimal digits is accepted by Parsley as the literal byte `#` (ISO 32000 asks writers to spell it `#23`); the spec Spec/NameLit.lean nameDenote includes such tokens as spellings "
+                    "(name_raw_hash_parse, `hash` cases); the relational spec `Spells` / the encoder keep to `#23`, so spell_parse and dict_duplicate_rejected do not speak about raw-`#` key spellings (covered by the `hash` / `nohash` cases only)",
                     "domain of the encoder theorems (spell_is_Spells, spell_parse_encoder*): the decidable predicate `wfDeep` of Spec/SpellingWF.lean. It excludes exactly: "
                     "integers outside +-(2^63-1); reals with numerator >= 2^120 or a denominator that is not 10^k (1<=k<30); NUL bytes in names/keys; comments and streams; "
                     "object numbers above i64::MAX (ref_range_witness: `wf` allowed them, the parser reads 2^63 as a real); null dictionary values (null_value_witness: the "
